@@ -815,7 +815,8 @@ def compare_read(ref, got, sub, what, case, k, site):
     inp = {"case": shrink_case(case, k), "op": case["ops"][k]}
     if str(got.dtype) != dtype:
         return Failure("%s: wrong element type" % what, inp, str(got.dtype), dtype, site)
-    if list(got.shape) != shape:
+    if list(got.shape) != shape and not (list(got.shape) in ([], [1]) and shape == [1]):
+        # a single element may come back as a 0-d value or as a length-1 array: the property fixes neither
         return Failure("%s: wrong shape" % what, inp, list(got.shape), shape, site)
     vals = [np_to_frac(x) for x in (got.ravel().tolist() if got.dtype.kind in "iub" else got.ravel())]
     o = ref.origin if ref.origin is not None else Fraction(0)
